@@ -294,6 +294,9 @@ func (c *aClient) idle() error {
 
 func aRequest(st aStep, known map[string]aDef) (method, target, body string, ok bool) {
 	q := url.Values{}
+	// "<ff>" in a name, colour or URL of a schedule stands for the byte 0xff (no valid UTF-8; the trace is JSON and cannot carry it)
+	raw := func(s string) string { return strings.ReplaceAll(s, "<ff>", "\xff") }
+	st.Name, st.New, st.Color, st.What = raw(st.Name), raw(st.New), raw(st.Color), raw(st.What)
 	switch st.A {
 	case "AddTag":
 		text := st.Def.query()
